@@ -356,6 +356,7 @@ func runC07Case(c *C07Case, ch sched.Chooser) (c07Stats, string) {
 		return st, "emulator start: " + err.Error()
 	}
 	defer e.Close()
+	e.Inline = true // the scheduler identifies workers by goroutine
 	if controlled {
 		gcsutil.VerifYield = sc.Yield
 		gcsemu.VerifYield = func(p string) { sc.Yield(p, nil) }
